@@ -273,8 +273,8 @@ class RuleView:
     """A rule of a sibling property re-run under another rule id, optionally restricted to the findings that concern
     one parameter / keyword (`keep`): obligations that do not concern it count as discharged under the new id."""
 
-    def __init__(self, rep, rid: str, keep=None) -> None:
-        self._rep, self._rid, self._keep = rep, rid, keep
+    def __init__(self, rep, rid: str, keep=None, only: tuple[str, ...] | None = None) -> None:
+        self._rep, self._rid, self._keep, self._only = rep, rid, keep, only
 
     def __getattr__(self, name: str):
         return getattr(self._rep, name)
@@ -283,12 +283,16 @@ class RuleView:
         return None
 
     def instance(self, rid: str, construct: str, sample=None) -> None:
-        self._rep.instance(self._rid, construct, sample)
+        if self._only is None or rid in self._only:
+            self._rep.instance(self._rid, construct, sample)
 
     def ok(self, rid: str, n: int = 1) -> None:
-        self._rep.ok(self._rid, n)
+        if self._only is None or rid in self._only:
+            self._rep.ok(self._rid, n)
 
     def fail(self, rid: str, key: str, message: str, where: str = "", function: str = "", **detail) -> None:
+        if self._only is not None and rid not in self._only:
+            return
         if self._keep is None or self._keep(key, message):
             self._rep.fail(self._rid, key, message, where=where, function=function, **detail)
         else:
@@ -334,3 +338,47 @@ def nonneg_local(prog, outer, param: str) -> str | None:
             hits.append(tgt.id)
     stores = [n.id for n in prog._own_nodes(outer.node) if isinstance(n, _ast.Name) and isinstance(n.ctx, _ast.Store)]
     return hits[0] if len(hits) == 1 and stores.count(hits[0]) == 1 else None
+
+
+def forwarding_slice(rep, rid: str, prog, names: tuple[str, ...], text: str, floor: int = 50) -> None:
+    """the obligations of C12 R12.3 (every parameter of every delegating layer - decorator, sugar, from_config, policy,
+    retry, runner, context - reaches its delegate under its own name, unmodified) that concern the given parameters,
+    re-run under rule `rid` of the property whose guarantee depends on those parameters arriving"""
+    import re
+
+    from .c12 import forwarding
+
+    pat = re.compile(r"(?<![A-Za-z_])(" + "|".join(re.escape(n) for n in names) + r")(?![A-Za-z_])")
+    rep.rule(rid, text)
+    forwarding(RuleView(rep, rid, keep=lambda key, msg: bool(pat.search(key) or pat.search(msg))), prog)
+    rep.floor(rid, floor)
+
+
+def timeline_record(rep, rid: str, prog, fields: tuple[str, ...] = ("attempt", "event", "sleep_s")) -> None:
+    """the captured timeline shows what the hooks were shown: `_TimelineCollector.record(event, attempt, sleep_s, tags)`
+    builds its TimelineEvent with the like-named fields taken from those very parameters (`elapsed_s` is the collector's
+    own clock reading, never one of the parameters)"""
+    from ..ctx import engine
+
+    fi = prog.func("redress.policy.runner.timeline:_TimelineCollector.record")
+    rep.analysed(fi.qual)
+    n = 0
+    for p in engine(prog).paths(fi):
+        evs = [e for e in p.calls(pure=None) if e.is_ctor("TimelineEvent")]
+        if not evs:
+            continue
+        n += 1
+        d = evs[0].kwargs
+        rep.instance(rid, f"_TimelineCollector.record|{'|'.join(p.describe()[-2:])[:80]}")
+        bad = {f: show(d.get(f)) for f in fields if d.get(f) != ("param", f)}
+        el = d.get("elapsed_s")
+        if "elapsed_s" not in fields and isinstance(el, tuple) and el and el[0] == "param":
+            bad["elapsed_s"] = show(el)
+        if bad or len(evs) != 1:
+            rep.fail(rid, f"timeline-record|{sorted(bad)[0] if bad else 'count'}", f"_TimelineCollector.record builds the timeline entry with {bad or 'several TimelineEvent constructions'}; expected each of {fields} from the parameter of the same name", where=fi.where(), function=fi.qual, path=p.describe())
+        else:
+            rep.ok(rid)
+    if n < 1:
+        from ..model import AnalysisError
+
+        raise AnalysisError(f"{rid}: no TimelineEvent construction found in _TimelineCollector.record")
